@@ -200,6 +200,18 @@ class Machine(RuleBasedStateMachine):
             new = ["q", ti, kind, op[3]]
         self._query_op(new)
 
+    @precondition(lambda self: getattr(self, "last_op", None) is not None)
+    @rule(kind=st.sampled_from(["off", "delta", "abbrev", "zdt"]), where=st.sampled_from(["mid", "jan1", "dec31", "rnd"]), r=st.integers(0, 2**31))
+    def same_year_other_instant(self, kind, where, r):
+        # same time zone, same calendar year, another instant (e.g. Jan 1 first, then mid-year)
+        op = self.last_op
+        if op[2] in ("print", "short", "id"):
+            return
+        y = op[3] if op[2] == "odt" else (None if op[3] == I32MIN else 2000 + op[3] // 31556952)
+        if y is None or y < 1932 or y > 2066:
+            return
+        self._query_op(["q", op[1], kind, instant(y, where, r)])
+
     @precondition(lambda self: len(self.tz_info) >= 2)
     @rule(data=st.data(), kind=st.sampled_from(["off", "delta", "abbrev", "print", "odt", "zdt"]), t=instants, y=years)
     def alternate(self, data, kind, t, y):
